@@ -165,7 +165,7 @@ class Scratch:
             if not os.path.exists(parent):
                 raise Inconclusive('harness %s: parent %s does not exist in the tree' % (m['name'], m['parent']))
             with open(parent, 'a') as f:
-                f.write('\n#[cfg(kani)]\n#[path = "%s"]\nmod %s;\n' % (dst, m['mod']))
+                f.write('\n#[cfg(kani)]\n#[path = "%s"]\npub(crate) mod %s;\n' % (dst, m['mod']))
             for (fn, rx, repl) in m['inject']:
                 p = os.path.join(self.dir, fn)
                 src = open(p).read()
@@ -332,7 +332,7 @@ def classify(h, r, prop=None):
     if unwind_fail:
         if h.unwind_violation:
             return 'fail', unwind_fail, ['loop bound = claimed maximum work exceeded']
-        return 'inconclusive', unwind_fail, ['unwinding assertion failed: bound too small for this tree']
+        return 'inconclusive', unwind_fail, ['unwinding assertion failed (bound too small for this tree): ' + '; '.join(sorted(set('%s@%s:%s' % (c.get('function'), os.path.basename(c.get('location', {}).get('file', '?')), c.get('location', {}).get('line', '?')) for c in unwind_fail)))[:600]]
     if st != 'Success':
         odd = [c for c in checks if c['status'] not in ('Success', 'Satisfied', 'Unreachable', 'Failure', 'Unsatisfiable')]
         return 'inconclusive', odd, ['kani status %s without failing check (%s): %s' % (st, err.get('error_type'), '; '.join('%s=%s' % (check_key(c), c['status']) for c in odd[:6]))]
@@ -361,7 +361,15 @@ def playback_tests(scratch, h, logdir):
     with open(os.path.join(logdir, 'playback-%s.log' % h.name), 'w') as f:
         f.write('$ ' + ' '.join(cmd) + '\n' + out)
     tests = re.findall(r'```\n(.*?)```', out, flags=re.S)
-    return tests
+    seen = set()
+    uniq = []
+    for t in tests:
+        m = re.search(r'fn (kani_concrete_playback_[A-Za-z0-9_]+)', t)
+        key = m.group(1) if m else t
+        if key not in seen:
+            seen.add(key)
+            uniq.append(t)
+    return uniq
 
 
 def native_replay(scratch, h, tests, logdir, watchdog=20):
@@ -534,8 +542,9 @@ def run_check(prop, tier, seed, only=None, write_evidence=True):
             tests = playback_tests(scratch, h, logdir)
             body = ['// Counterexample for harness %s (property %s)' % (h.full, prop),
                     '// failing checks:'] + ['//   ' + check_key(c) + '  @ %s:%s' % (os.path.basename(c.get('location', {}).get('file', '?')), c.get('location', {}).get('line', '?')) for c in new]
-            body += ['// replay: cd /verif && ./check %s --replay %s' % (prop, rep_path), '//@replay harness=%s' % h.name, '']
-            body += tests
+            body += ['// replay: cd /verif && ./check %s --replay %s' % (prop, rep_path), '//@replay harness=%s' % h.name]
+            n_head = len(body)
+            body += [''] + tests
             reproduced = None
             if h.replay == 'native' and tests:
                 names, rr = native_replay(scratch, h, tests, logdir)
@@ -545,9 +554,9 @@ def run_check(prop, tier, seed, only=None, write_evidence=True):
                     if isinstance(per, dict) and 'outcome' not in per:
                         outcomes += list(per.values())
                 reproduced = any(o.startswith('panic') or o.startswith('hang') for o in outcomes)
-                body.insert(3, '// native replay: ' + json.dumps(rr))
+                body.insert(n_head, '// native replay: ' + json.dumps(rr))
             elif h.replay != 'native':
-                body.insert(3, '// native replay not applicable (%s): verdict class KANI-ONLY, triaged by reading' % h.replay)
+                body.insert(n_head, '// native replay not applicable (%s): verdict class KANI-ONLY, triaged by reading' % h.replay)
             with open(rep_path, 'w') as f:
                 f.write('\n'.join(body) + '\n')
             if h.replay == 'native' and reproduced is False:
